@@ -65,7 +65,7 @@ def sinks(ctx: Ctx) -> List[Sink]:
         if not is_analysis_module(f.module.name):
             continue
         # the value hasher digests the *content* of the value it is given (its own digest calls are not signature sinks)
-        in_hash_module = f.module.name == "dds.fun_args" and (f.qname.startswith("dds.fun_args.dds_hash") or f.qname in digest_names or f.qname in fam)
+        in_hash_module = f.qname.startswith("dds.fun_args.dds_hash") or f.qname in digest_names or f.qname in fam
         for n in f.own_nodes():
             if not isinstance(n, ast.Call):
                 continue
